@@ -193,5 +193,36 @@ PROPS["C12"] = {
     "legs": [rapid("hist", "events", "TestEventStream", 2000, 40000, shards=(2, 12))],
 }
 
+CLUSTER_ASSUME = [
+    "one driver goroutine; barriers are requests/handled-notifications through FIFO inboxes and sentinel events, never sleeps; bounded waits (30 s) only yield 'inconclusive'",
+    "members have fixed attributes per ID and distinct hosts; every snapshot contains the observing node",
+]
+
+PROPS["C18"] = {
+    "id": "C18", "level": "exploration",
+    "rule": "generated sequences of 1..8 membership snapshots over a universe of 6 members with fixed kind sets plus the observing node (growing, shrinking, repeated, "
+            "with duplicate entries, self at a generated position) sent to the real agent of a cluster with a stub provider; after each snapshot Members() must equal the "
+            "snapshot by ID, the MemberJoinEvent/MemberLeaveEvent log since the previous snapshot must be exactly the set difference (each once, none for stayers), and HasKind(k) "
+            "must equal 'some member of the view advertises k' for 5 kinds.  Non-trivial = some snapshot both adds and removes members, or contains duplicate entries.",
+    "technique": "model-based property testing (rapid) of snapshot histories against a set model; Members() request as barrier, sentinel event for the event log",
+    "level_text": "Generated-history search against an exact set model of the view, the event log and the kind index.",
+    "level_note": "trusts the set model; member attributes are fixed per ID",
+    "assumptions": CLUSTER_ASSUME,
+    "legs": [rapid("view", "clusterp", "TestMembershipView", 2000, 40000, shards=(2, 12))],
+}
+
+PROPS["C20"] = {
+    "id": "C20", "level": "exploration",
+    "rule": "generated histories of 1..12 ops (handshake from a peer, member list, unreachable report for the host of a member / of a non-member / repeated) against the real "
+            "SelfManaged provider actor; unreachable reports take the public route (RemoteUnreachableEvent on the event stream -> event child -> provider).  After every op: "
+            "the handshake reply is the complete list, the agent was told the new list whenever the op changes or re-reports it, a read-back handshake returns exactly the model set, "
+            "and no ActorRestartedEvent for the provider was published.  Non-trivial = history holds an unreachable report for a non-member, or re-adds a member that was removed.",
+    "technique": "model-based property testing (rapid) of provider histories against a set model; a middleware on the provider actor gives exact 'message handled' barriers",
+    "level_text": "Generated-history search against an exact set model of the provider's member list, with a recording stub agent.",
+    "level_note": "the Started/Stopped handlers of the provider are replaced by a shim without mDNS and ping timer (shim/export/cluster.go); all other messages are handled by SelfManaged.Receive itself",
+    "assumptions": CLUSTER_ASSUME + ["the network-facing part of the provider's Started handler (zeroconf announce/browse, ping repeater) is not executed"],
+    "legs": [rapid("prov", "clusterp", "TestProvider", 1500, 30000, shards=(2, 12))],
+}
+
 # reasons for properties that are not claimed (kept current by hand)
 NA_REASONS = {}
